@@ -5076,11 +5076,26 @@ fn worker_thread(
                     worker_id, processed_count
                 );
             }
+            #[cfg(ragc_verif)]
+            crate::verif_hooks::event("worker-exit", worker_id as u64, 0);
             break;
         };
 
         let queue_wait = queue_start.elapsed();
         total_queue_wait += queue_wait;
+        #[cfg(ragc_verif)]
+        {
+            crate::verif_hooks::event(
+                if task.is_sync_token {
+                    "pulled-token"
+                } else {
+                    "pulled-contig"
+                },
+                worker_id as u64,
+                task.cost as u64,
+            );
+            crate::verif_hooks::point(crate::verif_hooks::SITE_AFTER_PULL, worker_id);
+        }
 
         // Handle sync tokens with barrier synchronization (matches C++ AGC registration stage)
         if task.is_sync_token {
@@ -5099,7 +5114,14 @@ fn worker_thread(
 
             // Barrier 1: All workers arrive at sample boundary
             let barrier_start = std::time::Instant::now();
+            #[cfg(ragc_verif)]
+            {
+                crate::verif_hooks::point(crate::verif_hooks::SITE_BARRIER_1, worker_id);
+                crate::verif_hooks::event("barrier-arrive", worker_id as u64, 1);
+            }
             barrier.wait();
+            #[cfg(ragc_verif)]
+            crate::verif_hooks::event("barrier-leave", worker_id as u64, 1);
             total_barrier_wait += barrier_start.elapsed();
 
             // Phase 2 (Thread 0 only): Classify raw segments and prepare batch
@@ -5162,7 +5184,14 @@ fn worker_thread(
 
             // Barrier 2: All workers see prepared buffers
             let barrier_start = std::time::Instant::now();
+            #[cfg(ragc_verif)]
+            {
+                crate::verif_hooks::point(crate::verif_hooks::SITE_BARRIER_2, worker_id);
+                crate::verif_hooks::event("barrier-arrive", worker_id as u64, 2);
+            }
             barrier.wait();
+            #[cfg(ragc_verif)]
+            crate::verif_hooks::event("barrier-leave", worker_id as u64, 2);
             total_barrier_wait += barrier_start.elapsed();
 
             let compress_start = std::time::Instant::now();
@@ -5170,6 +5199,8 @@ fn worker_thread(
             // Workers compress segments and buffer archive writes (C++ AGC: AddPartBuffered)
             // Buffering is fast (memory only), flush happens after barrier
             loop {
+                #[cfg(ragc_verif)]
+                crate::verif_hooks::point(crate::verif_hooks::SITE_CLAIM_LOOP, worker_id);
                 let Some(idx) = parallel_state.claim_next_idx() else {
                     break;
                 };
@@ -5206,7 +5237,14 @@ fn worker_thread(
 
             // Barrier 3: All workers done with compression and buffering
             let barrier_start = std::time::Instant::now();
+            #[cfg(ragc_verif)]
+            {
+                crate::verif_hooks::point(crate::verif_hooks::SITE_BARRIER_3, worker_id);
+                crate::verif_hooks::event("barrier-arrive", worker_id as u64, 3);
+            }
             barrier.wait();
+            #[cfg(ragc_verif)]
+            crate::verif_hooks::event("barrier-leave", worker_id as u64, 3);
             total_barrier_wait += barrier_start.elapsed();
 
             if worker_id == 0 && config.verbosity > 0 {
@@ -5280,7 +5318,14 @@ fn worker_thread(
 
             // Barrier 4: All workers ready for next batch (reduced from 2 barriers)
             let barrier_start = std::time::Instant::now();
+            #[cfg(ragc_verif)]
+            {
+                crate::verif_hooks::point(crate::verif_hooks::SITE_BARRIER_4, worker_id);
+                crate::verif_hooks::event("barrier-arrive", worker_id as u64, 4);
+            }
             barrier.wait();
+            #[cfg(ragc_verif)]
+            crate::verif_hooks::event("barrier-leave", worker_id as u64, 4);
             total_barrier_wait += barrier_start.elapsed();
 
             // Track total sync token processing time
@@ -5397,6 +5442,8 @@ fn worker_thread(
 
         // ONE lock acquisition for entire contig (reduces contention significantly)
         // Push to this worker's own buffer (NO CONTENTION - each worker has its own buffer)
+        #[cfg(ragc_verif)]
+        crate::verif_hooks::point(crate::verif_hooks::SITE_BEFORE_RAW_PUSH, worker_id);
         raw_segment_buffers[worker_id]
             .lock()
             .unwrap()
